@@ -153,7 +153,7 @@ PROPS = {
     ),
     "C13": dict(
         title="retry: bounded attempts, no transition from a retried attempt",
-        theorems={ITEMS: ["C13_retry_iff", "C13_retry_requires_tally_below_count", "C13_completed_rows", "C13_retry_event_reopens"],
+        theorems={ITEMS: ["C13_retry_iff", "C13_retry_requires_tally_below_count", "C13_completed_rows", "C13_retry_event_reopens", "tbl_retry_dispatch_is_active"],
                   RETRY: ["C13_tally_bounded", "C13_update_keeps_bound", "C13_retrying_only_by_retry_event", "C13_retry_event_licensed", "C13_no_retry_without_status_change",
                           "C13_restage_bumps_once", "C13_no_restage_otherwise"],
                   FROZEN: ["C13_retried_attempt_undecided", "C18_decided_records_completed"],
